@@ -79,7 +79,8 @@ fn props(exprs: &[String]) -> Result<Vec<Option<String>>, Out> {
 }
 
 fn panic_site(p: &str) -> String {
-    p.split(": ").next().unwrap_or("").rsplitn(2, ':').last().unwrap_or("").to_string()
+    // file + normalised message (no line number): survives unrelated edits
+    vp::rs::panic_site(p)
 }
 
 /// The selector text of the single rule emitted for `S{x:y}`.
